@@ -394,7 +394,7 @@ def _instantiate(h: ast.FunctionDef, call: ast.Call, host: ast.FunctionDef):
     return pre + hb
 
 
-def _inline_helpers(prog: Program, cls: ClassInfo, fn: ast.FunctionDef, exclude: Set[str], depth: int = 0) -> None:
+def _inline_helpers(prog: Program, cls: ClassInfo, fn: ast.FunctionDef, exclude: Set[str], depth: int = 0, public: bool = False) -> None:
     if depth > 3:
         return
     methods = prog.all_methods(cls)
@@ -403,7 +403,7 @@ def _inline_helpers(prog: Program, cls: ClassInfo, fn: ast.FunctionDef, exclude:
 
     def helper_of(call: ast.AST):
         if isinstance(call, ast.Call) and isinstance(call.func, ast.Attribute) and isinstance(call.func.value, ast.Name) \
-                and call.func.value.id in class_names and call.func.attr.startswith("_") and not call.func.attr.startswith("__") \
+                and call.func.value.id in class_names and (call.func.attr.startswith("_") or public) and not call.func.attr.startswith("__") \
                 and call.func.attr in methods and call.func.attr not in exclude and call.func.attr != fn.name:
             owner, h = methods[call.func.attr]
             if owner.is_abstract_method(call.func.attr):
@@ -471,6 +471,15 @@ def _inline_helpers(prog: Program, cls: ClassInfo, fn: ast.FunctionDef, exclude:
                         new.extend(wrapper.body)
                         changed = True
                         continue
+            # yield from self._generator(..)   ->   the generator's body (its yields are ours)
+            if isinstance(st, ast.Expr) and isinstance(st.value, ast.YieldFrom):
+                g = generator_of(st.value.value)
+                if g is not None and not any(isinstance(x, ast.Return) for x in ast.walk(g)):
+                    inst = _instantiate(g, st.value.value, fn)
+                    if inst is not None:
+                        new.extend(inst)
+                        changed = True
+                        continue
             # return self._h(..)
             if isinstance(st, ast.Return) and st.value is not None:
                 r = helper_of(st.value)
@@ -525,7 +534,7 @@ def _inline_helpers(prog: Program, cls: ClassInfo, fn: ast.FunctionDef, exclude:
     fn.body = do_block(fn.body, True)
     if changed:
         ast.fix_missing_locations(fn)
-        _inline_helpers(prog, cls, fn, exclude, depth + 1)
+        _inline_helpers(prog, cls, fn, exclude, depth + 1, public)
 
 
 def _return_pairs(fn: ast.AST) -> Dict[str, int]:
@@ -634,9 +643,232 @@ def _append_loops(stmts: List[ast.stmt]) -> List[ast.stmt]:
     return out
 
 
+def _genexp_loops(stmts: List[ast.stmt], fn: ast.AST) -> List[ast.stmt]:
+    """
+    `for t in (e for a in A for b in B if c): body` (the generator written in place, or bound by the statement just before to a
+    local that is used nowhere else)  ->  `for a in A: for b in B: if c: t = e; body`  (a generator expression is evaluated lazily,
+    so the interleaving with the body is the same)
+    """
+    out: List[ast.stmt] = []
+    i = 0
+    while i < len(stmts):
+        s = stmts[i]
+        nxt = stmts[i + 1] if i + 1 < len(stmts) else None
+        gen = None
+        loop = None
+        if isinstance(s, ast.For) and isinstance(s.iter, ast.GeneratorExp) and not s.orelse:
+            gen, loop, step = s.iter, s, 1
+        elif isinstance(s, ast.Assign) and len(s.targets) == 1 and isinstance(s.targets[0], ast.Name) and isinstance(s.value, ast.GeneratorExp) \
+                and isinstance(nxt, ast.For) and isinstance(nxt.iter, ast.Name) and nxt.iter.id == s.targets[0].id and not nxt.orelse \
+                and sum(1 for x in ast.walk(fn) if isinstance(x, ast.Name) and x.id == s.targets[0].id) == 2:
+            gen, loop, step = s.value, nxt, 2
+        if gen is not None and not any(isinstance(x, (ast.Break,)) for b_ in loop.body for x in ast.walk(b_)):
+            same = ast.unparse(loop.target) == ast.unparse(gen.elt)
+            inner: List[ast.stmt] = ([] if same else [ast.copy_location(ast.Assign(targets=[loop.target], value=gen.elt), loop)]) + loop.body
+            for g in reversed(gen.generators):
+                for c in reversed(g.ifs):
+                    inner = [ast.copy_location(ast.If(test=c, body=inner, orelse=[]), loop)]
+                inner = [ast.copy_location(ast.For(target=g.target, iter=g.iter, body=inner, orelse=[]), loop)]
+            out.extend(_genexp_loops(inner, fn))
+            i += step
+            continue
+        for fld in ("body", "orelse", "finalbody"):
+            b = getattr(s, fld, None)
+            if isinstance(b, list) and b and isinstance(b[0], ast.stmt):
+                setattr(s, fld, _genexp_loops(b, fn))
+        if isinstance(s, ast.Try):
+            for h in s.handlers:
+                h.body = _genexp_loops(h.body, fn)
+        out.append(s)
+        i += 1
+    return out
+
+
+def _split_tuple_assigns(stmts: List[ast.stmt]) -> List[ast.stmt]:
+    """`a, b = x, y` -> `a = x; b = y` when no later value reads an earlier target (then the parallel assignment is sequential)"""
+    out: List[ast.stmt] = []
+    for s in stmts:
+        for fld in ("body", "orelse", "finalbody"):
+            b = getattr(s, fld, None)
+            if isinstance(b, list) and b and isinstance(b[0], ast.stmt):
+                setattr(s, fld, _split_tuple_assigns(b))
+        if isinstance(s, ast.Try):
+            for h in s.handlers:
+                h.body = _split_tuple_assigns(h.body)
+        if isinstance(s, ast.Assign) and len(s.targets) == 1 and isinstance(s.targets[0], ast.Tuple) and isinstance(s.value, ast.Tuple) \
+                and len(s.targets[0].elts) == len(s.value.elts) and not any(isinstance(e, ast.Starred) for e in s.targets[0].elts + s.value.elts):
+            ts = [ast.unparse(t) for t in s.targets[0].elts]
+            vs = [ast.unparse(v) for v in s.value.elts]
+            roots = [t.split(".")[0].split("[")[0] for t in ts]
+            independent = all(ts[i] not in vs[j] and not (roots[i] == ts[i] and roots[i] in {x.id for x in ast.walk(s.value.elts[j]) if isinstance(x, ast.Name)})
+                              for j in range(len(vs)) for i in range(j))
+            if independent:
+                for t, v in zip(s.targets[0].elts, s.value.elts):
+                    out.append(ast.copy_location(ast.Assign(targets=[t], value=v), s))
+                continue
+        out.append(s)
+    return out
+
+
+def _strip_order(e: ast.AST) -> ast.AST:
+    while True:
+        if isinstance(e, ast.Call) and isinstance(e.func, ast.Name) and e.func.id in ("list", "tuple", "reversed", "iter", "sorted") and len(e.args) == 1:
+            e = e.args[0]
+        elif isinstance(e, ast.Subscript) and isinstance(e.slice, ast.Slice) and e.slice.lower is None and e.slice.upper is None:
+            e = e.value   # x[:] / x[::-1]: a copy, possibly reversed
+        else:
+            return e
+
+
+def _worklists(stmts: List[ast.stmt]) -> List[ast.stmt]:
+    """
+    A tree traversal written with an explicit work list,
+        w = list(ROOTS) [; w.reverse()]
+        while w:
+            c = w.pop()
+            <action on c>
+            w.extend(reversed(c.children))
+    is listed as   for c in __subtree_nodes__(ROOTS): <action on c>   (every node of the trees below ROOTS is visited once; the
+    visiting order is not part of the normal form).
+    """
+    out: List[ast.stmt] = []
+    i = 0
+    while i < len(stmts):
+        s = stmts[i]
+        for fld in ("body", "orelse", "finalbody"):
+            b = getattr(s, fld, None)
+            if isinstance(b, list) and b and isinstance(b[0], ast.stmt):
+                setattr(s, fld, _worklists(b))
+        if isinstance(s, ast.Try):
+            for h in s.handlers:
+                h.body = _worklists(h.body)
+        if isinstance(s, ast.Assign) and len(s.targets) == 1 and isinstance(s.targets[0], ast.Name):
+            w = s.targets[0].id
+            roots = _strip_order(s.value)
+            if isinstance(roots, ast.List) and len(roots.elts) == 1 and isinstance(roots.elts[0], ast.Starred):
+                roots = roots.elts[0].value
+            j = i + 1
+            if j < len(stmts) and isinstance(stmts[j], ast.Expr) and isinstance(stmts[j].value, ast.Call) \
+                    and isinstance(stmts[j].value.func, ast.Attribute) and stmts[j].value.func.attr == "reverse" \
+                    and isinstance(stmts[j].value.func.value, ast.Name) and stmts[j].value.func.value.id == w:
+                j += 1
+            loop = stmts[j] if j < len(stmts) else None
+            if isinstance(loop, ast.While) and not loop.orelse and loop.body:
+                t = loop.test
+                test_ok = (isinstance(t, ast.Name) and t.id == w) or (isinstance(t, ast.Compare) and w in ast.unparse(t) and "len(" in ast.unparse(t))
+                first = loop.body[0]
+                pop_ok = isinstance(first, ast.Assign) and len(first.targets) == 1 and isinstance(first.targets[0], ast.Name) \
+                    and isinstance(first.value, ast.Call) and isinstance(first.value.func, ast.Attribute) \
+                    and first.value.func.attr in ("pop", "popleft") and isinstance(first.value.func.value, ast.Name) and first.value.func.value.id == w
+                if test_ok and pop_ok:
+                    c = first.targets[0].id
+                    rest, extends = [], 0
+                    for st in loop.body[1:]:
+                        pushes = None
+                        if isinstance(st, ast.Expr) and isinstance(st.value, ast.Call) and isinstance(st.value.func, ast.Attribute) \
+                                and st.value.func.attr in ("extend", "extendleft") and isinstance(st.value.func.value, ast.Name) \
+                                and st.value.func.value.id == w and len(st.value.args) == 1:
+                            pushes = st.value.args[0]
+                        elif isinstance(st, ast.AugAssign) and isinstance(st.op, ast.Add) and isinstance(st.target, ast.Name) and st.target.id == w:
+                            pushes = st.value
+                        if pushes is not None:
+                            ch = _strip_order(pushes)
+                            if isinstance(ch, ast.Attribute) and ch.attr == "children" and isinstance(ch.value, ast.Name) and ch.value.id == c:
+                                extends += 1
+                                continue
+                            extends = 99
+                        rest.append(st)
+                    touches_w = any(isinstance(x, ast.Name) and x.id == w for st in rest for x in ast.walk(st))
+                    if extends == 1 and not touches_w and rest and not any(isinstance(x, (ast.Break, ast.Continue)) for st in rest for x in ast.walk(st)):
+                        call = ast.Call(func=ast.Name(id="__subtree_nodes__", ctx=ast.Load()), args=[roots], keywords=[])
+                        new_loop = ast.For(target=ast.Name(id=c, ctx=ast.Store()), iter=call, body=_worklists(rest), orelse=[])
+                        out.append(ast.copy_location(new_loop, loop))
+                        i = j + 1
+                        continue
+        out.append(s)
+        i += 1
+    return out
+
+
+def _rename(stmts: List[ast.stmt], name: str, by: ast.AST) -> List[ast.stmt]:
+    out = copy.deepcopy(stmts)
+    for st in out:
+        _Subst({name: by}).visit(st)
+    return out
+
+
+def _small_loops(stmts: List[ast.stmt], fn: ast.AST) -> List[ast.stmt]:
+    """
+    (1) `if c: v = (a, b) else: v = (b, a)` followed by `for x in v: body` (v used nowhere else) -> the loop moves into both branches;
+    (2) `for x in (a, b, ..): body` over a short display of names, small body without break / continue -> unrolled;
+    (3) a nested function without parameters that returns nothing, called as a statement `f()` -> its body.
+    """
+    nested = {d.name: d for d in ast.walk(fn) if isinstance(d, ast.FunctionDef) and d is not fn and not d.args.args and not d.args.posonlyargs
+              and not d.args.kwonlyargs and not d.args.vararg and not d.args.kwarg and not d.decorator_list
+              and not any(isinstance(x, (ast.Return, ast.Yield, ast.YieldFrom, ast.Nonlocal, ast.Global)) for x in ast.walk(d))}
+    out: List[ast.stmt] = []
+    i = 0
+    while i < len(stmts):
+        s = stmts[i]
+        nxt = stmts[i + 1] if i + 1 < len(stmts) else None
+        # (1)
+        if isinstance(s, ast.If) and s.orelse and isinstance(nxt, ast.For) and isinstance(nxt.iter, ast.Name) and not nxt.orelse:
+            v = nxt.iter.id
+            def last_assign(b):
+                return b and isinstance(b[-1], ast.Assign) and len(b[-1].targets) == 1 and isinstance(b[-1].targets[0], ast.Name) \
+                    and b[-1].targets[0].id == v and isinstance(b[-1].value, (ast.Tuple, ast.List))
+            uses = sum(1 for x in ast.walk(fn) if isinstance(x, ast.Name) and x.id == v)
+            if last_assign(s.body) and last_assign(s.orelse) and uses == 3:
+                for b in (s.body, s.orelse):
+                    disp = b[-1].value
+                    b[-1:] = [ast.copy_location(ast.For(target=copy.deepcopy(nxt.target), iter=disp, body=copy.deepcopy(nxt.body), orelse=[]), nxt)]
+                stmts = stmts[:i + 1] + stmts[i + 2:]
+                nxt = None
+        for fld in ("body", "orelse", "finalbody"):
+            b = getattr(s, fld, None)
+            if isinstance(b, list) and b and isinstance(b[0], ast.stmt) and not (isinstance(s, ast.FunctionDef) and s is not fn):
+                setattr(s, fld, _small_loops(b, fn))
+        if isinstance(s, ast.Try):
+            for h in s.handlers:
+                h.body = _small_loops(h.body, fn)
+        # (2)
+        if isinstance(s, ast.For) and not s.orelse and isinstance(s.target, ast.Name) and isinstance(s.iter, (ast.Tuple, ast.List)) \
+                and 1 <= len(s.iter.elts) <= 4 and all(isinstance(e, ast.Name) for e in s.iter.elts) and len(s.body) <= 3 \
+                and not any(isinstance(x, (ast.Break, ast.Continue)) for b_ in s.body for x in ast.walk(b_)) \
+                and not any(isinstance(x, ast.Name) and x.id == s.target.id and isinstance(x.ctx, ast.Store) for b_ in s.body for x in ast.walk(b_)):
+            unrolled: List[ast.stmt] = []
+            for e in s.iter.elts:
+                unrolled.extend(_rename(s.body, s.target.id, e))
+            out.extend(_small_loops(unrolled, fn))
+            i += 1
+            continue
+        # (3)
+        if isinstance(s, ast.Expr) and isinstance(s.value, ast.Call) and isinstance(s.value.func, ast.Name) and s.value.func.id in nested \
+                and not s.value.args and not s.value.keywords:
+            body = [b_ for b_ in copy.deepcopy(nested[s.value.func.id].body)
+                    if not (isinstance(b_, ast.Expr) and isinstance(b_.value, ast.Constant))]
+            for b_ in body:
+                for x in ast.walk(b_):
+                    if hasattr(x, "lineno"):
+                        x.lineno = s.lineno
+            out.extend(body or [ast.copy_location(ast.Pass(), s)])
+            i += 1
+            continue
+        out.append(s)
+        i += 1
+    return out
+
+
 def normalise_function(fn: ast.FunctionDef, prog: Optional[Program] = None) -> None:
     """in-place normal form of one function (no helper inlining): see the module docstring, steps 2-5"""
     fn.body = _fix_ifs(fn.body)
+    fn.body = _genexp_loops(fn.body, fn)
+    fn.body = _split_tuple_assigns(fn.body)
+    fn.body = _worklists(fn.body)
+    fn.body = _small_loops(fn.body, fn)
+    # nested functions that were inlined everywhere are gone
+    loaded = {x.id for x in ast.walk(fn) if isinstance(x, ast.Name) and isinstance(x.ctx, ast.Load)}
+    fn.body = [st for st in fn.body if not (isinstance(st, ast.FunctionDef) and st.name not in loaded)] or fn.body
     fn.body = _append_loops(fn.body)
     counts = _stores(fn)
     for g in ast.walk(fn):
@@ -683,7 +915,7 @@ def flat(stmts: List[ast.stmt]) -> List[ast.stmt]:
 
 
 def canon(prog: Program, cls: Optional[ClassInfo], fn: ast.FunctionDef, exclude: Iterable[str] = (), helpers: bool = True,
-          locals_: bool = True) -> ast.FunctionDef:
+          locals_: bool = True, public: bool = False) -> ast.FunctionDef:
     if prog is None and cls is not None:
         prog = getattr(cls, "prog", None)
     # the canonical form depends on the class only through the helpers its self-calls resolve to: key by that resolution, so
@@ -705,7 +937,7 @@ def canon(prog: Program, cls: Optional[ClassInfo], fn: ast.FunctionDef, exclude:
                     seen.add(nm)
                     todo.append(methods[nm][1])
         sig = tuple(sorted((nm, methods[nm][0].qual) for nm in seen))
-    key = (sig if helpers and cls is not None else None, tuple(sorted(exclude)), helpers and cls is not None, locals_)
+    key = (sig if helpers and cls is not None else None, tuple(sorted(exclude)), helpers and cls is not None, locals_, public)
     cache = fn.__dict__.setdefault("_jfsa_canon", {})
     if key in cache:
         return cache[key]
@@ -716,7 +948,7 @@ def canon(prog: Program, cls: Optional[ClassInfo], fn: ast.FunctionDef, exclude:
     finally:
         fn.__dict__["_jfsa_canon"] = saved
     if helpers and cls is not None:
-        _inline_helpers(prog, cls, f, set(exclude))
+        _inline_helpers(prog, cls, f, set(exclude), 0, public)
     if locals_:
         normalise_function(f, prog)
     else:
